@@ -121,6 +121,34 @@ static void cmd_read (void)
 	free (path);
 }
 
+/* readcheck <LP|MPS> <hexpath>: read; if a problem comes back it must be internally consistent: it can be
+ * dumped, written in both formats, solved exactly and freed (C11).  Meant to run under `fork`. */
+static void cmd_readcheck (void)
+{
+	const char *ft = tok ();
+	char *path = unhex (tok ());
+	mpq_QSdata *p = mpq_QSread_prob (path, ft);
+	printf ("read %s\n", p ? "ok" : "fail");
+	if (p)
+	{
+		int st = -1, rv;
+		printf ("shape %d %d %d\n", mpq_QSget_colcount (p), mpq_QSget_rowcount (p), mpq_QSget_nzcount (p));
+		dump_api (p);
+		rv = mpq_QSwrite_prob (p, "rc_out.lp", "LP");
+		printf ("wlp %d\n", rv ? 1 : 0);
+		rv = mpq_QSwrite_prob (p, "rc_out.mps", "MPS");
+		printf ("wmps %d\n", rv ? 1 : 0);
+		if (mpq_QSget_colcount (p) <= 60 && mpq_QSget_rowcount (p) <= 60)
+		{
+			rv = QSexact_solver (p, 0, 0, 0, DUAL_SIMPLEX, &st);
+			printf ("solve %d %d\n", rv ? 1 : 0, st);
+		}
+		mpq_QSfree_prob (p);
+		printf ("freed\n");
+	}
+	free (path);
+}
+
 static void cmd_write (void)
 {
 	mpq_QSdata *p = slot ();
@@ -435,6 +463,7 @@ int qsx_more_commands (const char *c)
 	else if (!strcmp (c, "scan")) cmd_scan ();
 	else if (!strcmp (c, "read")) cmd_read ();
 	else if (!strcmp (c, "write")) cmd_write ();
+	else if (!strcmp (c, "readcheck")) cmd_readcheck ();
 	else if (!strcmp (c, "writebasis")) cmd_writebasis ();
 	else if (!strcmp (c, "readbasis")) cmd_readbasis ();
 	else if (!strcmp (c, "loadbasis")) cmd_loadbasis ();
